@@ -178,6 +178,50 @@ def run(ctx):
     probe("TZAware", "int", 0, 0, False)
     probe("Records", "bytes", 0, b"x", True)
     probe("Records", "str", 0, "x", False)
+    # values of *subclasses* of int (an IntEnum member, a user's `class Offset(int)`) are integers too:
+    # same membership, same constructor behaviour — and an answer at all.  Run in a child process: a
+    # membership test that does not return cannot be interrupted from Python.
+    import json as _json
+    import os
+    import subprocess
+    child = r"""
+import sys, json, enum
+sys.path.insert(0, %r)
+import kio.static.primitive as P
+class Offset(int): pass
+class Code(enum.IntEnum):
+    a = 0
+    b = 300
+    c = -5
+out = []
+for tname, (lo, hi) in json.loads(sys.argv[1]).items():
+    T = getattr(P, tname)
+    for v in (Offset(0), Offset(1), Offset(lo), Offset(hi), Offset(lo - 1), Offset(hi + 1), Code.a, Code.b, Code.c):
+        member = isinstance(v, T)
+        try:
+            T(v); ctor = "same"
+        except TypeError:
+            ctor = "typeError"
+        except Exception as e:
+            ctor = type(e).__name__
+        if member != (lo <= int(v) <= hi) or ctor != ("same" if member else "typeError"):
+            out.append([tname, type(v).__name__, int(v), member, ctor])
+print(json.dumps(out))
+""" % os.path.join(common.REPO, "src")
+    try:
+        r = subprocess.run([common.PY, "-c", child, _json.dumps({k: list(v) for k, v in DOC_RANGES.items()})],
+                           stdout=subprocess.PIPE, stderr=subprocess.PIPE, timeout=120)
+        n += 9 * len(DOC_RANGES)
+        if r.returncode != 0:
+            fails.append({"what": "membership/constructor on int-subclass values raised: " + r.stderr.decode()[-300:],
+                          "type": "int subclass", "arg": "-"})
+        else:
+            for tname, vt, v, member, ctor in _json.loads(r.stdout.decode().strip() or "[]")[:5]:
+                fails.append({"what": f"isinstance({vt}({v}), {tname}) is {member}, constructor {ctor}: differs from the "
+                                      f"documented range for a value of an int subclass", "type": tname, "arg": str(v)})
+    except subprocess.TimeoutExpired:
+        fails.append({"what": "isinstance / constructor of an integer type does not return within 120 s for a value "
+                              "of an int subclass (IntEnum member, class Offset(int))", "type": "int subclass", "arg": "-"})
     replies = driver.run_parallel(lines)
     for (tname, kind, arg, py), r in zip(meta, replies):
         if r != py:
